@@ -22,7 +22,8 @@ func init() {
 			" R2 also: no uncounted front cut between the header line and the validated name." +
 			" R6 positions are resolved by the FileSet." +
 			" R2 also: a diagnostic positioned at the current token (metaParser.errf) quotes only the current token." +
-			" R7 every assignment of the splitter's text is content[startOffset:offset] or nil, of its pos file.Pos(startOffset) or NoPos.",
+			" R7 every assignment of the splitter's text is content[startOffset:offset] or nil, of its pos file.Pos(startOffset) or NoPos." +
+			" R8 every section.Line takes the splitter's text and pos as they are; R9 a rejected patch is reported (= C16-R6).",
 		Trusted:     commonTrusted,
 		Assumptions: commonAssumptions,
 	})
@@ -40,6 +41,12 @@ func runC19(r *an.Run) {
 	positionsReadBeforeStrip(r, "R3-line-map")
 	positionsResolvedByTheFileSet(r, "R6-positions-are-resolved-by-the-fileset")
 	splitterPositionsFollowTheOffsets(r, "R7-the-splitters-text-and-position-follow-its-offsets")
+	lineKeepsTextAndPositionTogether(r, "R8-a-line-keeps-its-text-and-position-together")
+	// every rejected patch yields a diagnostic: the error of a load step is not overwritten by a later step
+	if m := buildRunModel(r); m != nil {
+		c16Messages(r, m)
+		relabel(r, "R6-messages-name-path-and-cause", "R9-a-rejected-patch-is-reported")
+	}
 }
 
 var positionedHelpers = map[string]string{
